@@ -195,6 +195,216 @@ def job_hex_len(jc):
 
 
 
+# ---------------------------------------------------------------- write_font._inputs: every row gets its own files or the build stops
+
+
+def _inputs_case(fmt, rows):
+    """rows: [(has_svg, has_png)] -> list of (svg tag, png tag) the real _inputs yields; files are tags naming themselves"""
+    from nanoemoji import write_font as WF
+    from nanoemoji.glyphmap import GlyphMapping
+
+    cfg = CFG.FontConfig()._replace(color_format=fmt)
+    maps = []
+    for i, (hs, hp) in enumerate(rows):
+        if not (hs or hp):
+            return "skip"
+        maps.append(GlyphMapping(Path(f"s{i}.svg") if hs else None, Path(f"b{i}.png") if hp else None, (0x41 + i,), f"g{i}"))
+    saved = (WF.SVG, WF.PNG)
+    WF.SVG = type("SVGStub", (), {"parse": staticmethod(lambda p: ("svg", str(p)))})
+    WF.PNG = type("PNGStub", (), {"read_from": staticmethod(lambda p: ("png", str(p)))})
+    try:
+        return [(g.svg_file, g.bitmap_file, g.svg, g.bitmap) for g in WF._inputs(cfg, maps)]
+    finally:
+        WF.SVG, WF.PNG = saved
+
+
+def _inputs_verdict(fmt, rows, out):
+    cfg = CFG.FontConfig()._replace(color_format=fmt)
+    need_svg, need_png = cfg.has_svgs, cfg.has_bitmaps
+    must_raise = any((need_svg and not hs) or (need_png and not hp) for hs, hp in rows)
+    if isinstance(out, Exception):
+        return None if must_raise else {"raised": repr(out)}
+    if must_raise:
+        return {"problem": "a row lacks a file this colour format needs, yet inputs were produced", "rows (has svg, has png)": rows, "inputs": [repr(o) for o in out]}
+    for i, ((hs, hp), (sf, bf, svg, png)) in enumerate(zip(rows, out)):
+        if (need_svg and svg != ("svg", f"s{i}.svg")) or (need_png and png != ("png", f"b{i}.png")) or (not need_png and png is not None) or (not need_svg and svg is not None):
+            return {"row": i, "got": [repr(svg), repr(png)], "problem": "a glyph was given another row's source (or one it should not have)"}
+    return None if len(out) == len(rows) else {"inputs": len(out), "rows": len(rows)}
+
+
+def replay_inputs(inp):
+    rows = [(bool(inp[f"svg{i}"]), bool(inp[f"png{i}"])) for i in range(inp["n"])]
+    try:
+        out = _inputs_case(inp["fmt"], rows)
+    except (ValueError, IOError) as e:
+        out = e
+    if out == "skip":
+        return None
+    return _inputs_verdict(inp["fmt"], rows, out)
+
+
+def job_inputs(jc):
+    from nanoemoji import write_font as WF
+
+    jc.encode(WF._inputs)
+    fmt, n = jc.params["fmt"], jc.params["n"]
+    inp = {"fmt": fmt, "n": n}
+    for i in range(n):
+        inp[f"svg{i}"], inp[f"png{i}"] = core.SymNum(z3.Int(f"svg{i}")), core.SymNum(z3.Int(f"png{i}"))
+
+    def body():
+        rows = [(core.integer(f"svg{i}", 0, 1).concretize() == 1, core.integer(f"png{i}", 0, 1).concretize() == 1) for i in range(n)]
+        try:
+            return rows, _inputs_case(fmt, rows)
+        except (ValueError, IOError) as e:
+            return rows, e
+
+    results = jc.explore(body, max_paths=500)
+    for r in results:
+        if not jc.no_exception(r, inp, replay_inputs, "C17:inputs:raises"):
+            continue
+        rows, out = r.value
+        if out == "skip":
+            continue
+        jc.reach(r, "stopped" if isinstance(out, Exception) else "ok")
+        jc.prove(r, z3.BoolVal(_inputs_verdict(fmt, rows, out) is None), "a glyph map row without a file the format needs stops the build; otherwise every glyph gets exactly its own row's sources", inp, replay_inputs, key="C17:inputs")
+    jc.expect_reached("ok", "stopped")
+
+
+# ---------------------------------------------------------------- the driver fails when ninja fails
+
+
+def _ninja_case(rc):
+    import subprocess as real_sp
+    import types
+    from nanoemoji import ninja as NINJA
+
+    def run(cmd, check=False, **kw):
+        if check and rc != 0:
+            raise real_sp.CalledProcessError(rc, cmd)
+        return real_sp.CompletedProcess(cmd, rc)
+
+    saved = (NINJA.subprocess, NINJA.FLAGS)
+    NINJA.subprocess = types.SimpleNamespace(run=run, CalledProcessError=real_sp.CalledProcessError, CompletedProcess=real_sp.CompletedProcess)
+    NINJA.FLAGS = types.SimpleNamespace(exec_ninja=True)
+    try:
+        NINJA.maybe_run_ninja(Path("/b/build.ninja"))
+        return "returned"
+    except real_sp.CalledProcessError:
+        return "raised"
+    finally:
+        NINJA.subprocess, NINJA.FLAGS = saved
+
+
+def replay_ninja(inp):
+    rc = int(inp["rc"])
+    out = _ninja_case(rc)
+    if (out == "raised") != (rc != 0):
+        return {"ninja exit status": rc, "maybe_run_ninja": out, "problem": "a failed build step must make the command fail (non-zero exit), not return normally"}
+    return None
+
+
+def job_ninja_status(jc):
+    from nanoemoji import ninja as NINJA
+
+    jc.encode(NINJA.maybe_run_ninja)
+    inp = {"rc": core.SymNum(z3.Int("rc"))}
+
+    def body():
+        rc = core.integer("rc", 0, 255)
+        return _ninja_case(rc)
+
+    results = jc.explore(body)
+    for r in results:
+        if not jc.no_exception(r, inp, replay_ninja, "C17:ninja-status:raises"):
+            continue
+        jc.reach(r, r.value)
+        jc.prove(r, (z3.Int("rc") != 0) == z3.BoolVal(r.value == "raised"), "maybe_run_ninja raises exactly when ninja exits non-zero (the failure of any build step reaches the command's exit status)", inp, replay_ninja, key="C17:ninja-status")
+    jc.expect_reached("raised", "returned")
+
+
+
+# ---------------------------------------------------------------- default glyph map: one row per source stem (duplicates stay visible)
+
+GM_POOL = ["emoji_u1f600.svg", "1f600.svg", "emoji_u1f600.png", "1F600.svg", "emoji_u1f601.svg", "1f600.png", "emoji_u1f468_200d_1f469.svg", "1f468-200d-1f469.svg"]
+
+
+def _gm_rows(files):
+    import importlib
+    import sys
+    from absl import flags
+
+    name = "nanoemoji.write_glyphmap"
+    if name not in sys.modules:
+        # the module defines an absl flag other modules define too; load it once with that flag pre-registered tolerated
+        try:
+            importlib.import_module(name)
+        except flags.DuplicateFlagError:
+            spec = importlib.util.find_spec(name)
+            src = open(spec.origin).read().replace('flags.DEFINE_string("output_file"', 'flags.FLAGS.__dict__.get("_x") or (lambda *a, **k: None)("output_file"')
+            mod = importlib.util.module_from_spec(spec)
+            sys.modules[name] = mod
+            exec(compile(src, spec.origin, "exec"), mod.__dict__)
+    WG = sys.modules[name]
+    return [(str(g.svg_file) if g.svg_file else None, str(g.bitmap_file) if g.bitmap_file else None, tuple(g.codepoints), g.glyph_name) for g in WG._glyphmappings(files)], WG
+
+
+def _gm_verdict(files, rows):
+    from pathlib import Path as _P
+
+    stems = []
+    for f in files:
+        if _P(f).stem not in stems:
+            stems.append(_P(f).stem)
+    got_stems = [_P(r[0] or r[1]).stem for r in rows]
+    if got_stems != stems:
+        return {"input files": files, "rows (svg, png, code points, glyph name)": rows, "problem": "the glyph map must carry one row per distinct source stem; a source that shares its code points with another must stay visible so the build stops on the duplicate"}
+    for r in rows:
+        for f in (r[0], r[1]):
+            if f is not None and f not in files:
+                return {"row": r, "problem": "row names a file that was not given"}
+    return None
+
+
+def replay_glyphmap_rows(inp):
+    files = [GM_POOL[int(inp[f"f{i}"])] for i in range(inp["n"])]
+    if len(set(files)) != len(files):
+        return None
+    try:
+        rows, _ = _gm_rows(files)
+    except Exception as e:
+        return {"files": files, "raised": repr(e)}
+    return _gm_verdict(files, rows)
+
+
+def job_glyphmap_rows(jc):
+    n = jc.params["n"]
+    _, WG = _gm_rows([GM_POOL[0]])
+    jc.encode(WG._glyphmappings)
+    inp = {"n": n}
+    for i in range(n):
+        inp[f"f{i}"] = core.SymNum(z3.Int(f"f{i}"))
+
+    def body():
+        idx = [core.integer(f"f{i}", 0, len(GM_POOL) - 1).concretize() for i in range(n)]
+        if len(set(idx)) != n:
+            return None
+        files = [GM_POOL[k] for k in idx]
+        return files, _gm_rows(files)[0]
+
+    results = jc.explore(body, max_paths=2000)
+    for r in results:
+        if not jc.no_exception(r, inp, replay_glyphmap_rows, "C17:glyphmap-rows:raises"):
+            continue
+        if r.value is None:
+            continue
+        files, rows = r.value
+        jc.reach(r, "ok")
+        jc.prove(r, z3.BoolVal(_gm_verdict(files, rows) is None), "default glyph map: one row per distinct source stem, naming only the given files (two sources with the same code points both stay in)", inp, replay_glyphmap_rows, key="C17:glyphmap-rows")
+    jc.expect_reached("ok")
+
+
+
 def jobs(tier):
     from harness import C15, C14, C10, C16, C16_radial, C04_gid
 
@@ -215,6 +425,12 @@ def jobs(tier):
         js.append(Job(f"bad fill[{case}]", job_bad_fill, case=case))
     js.append(Job("radial non-uniform mapping (OT-SVG)", job_nonuniform_radial))
     js.append(Job("hex colour length", job_hex_len))
+    for fmt in ("glyf_colr_1", "cbdt", "sbix", "picosvg"):
+        for n in (1, 2, 3):
+            js.append(Job(f"inputs[{fmt},n={n}]", job_inputs, fmt=fmt, n=n))
+    js.append(Job("ninja exit status", job_ninja_status))
+    for n in (2, 3):
+        js.append(Job(f"glyphmap rows[n={n}]", job_glyphmap_rows, n=n))
     return js
 
 
@@ -225,7 +441,7 @@ def main(tier):
         tier=tier,
         explanation="Bounded symbolic execution of the predicates that must stop a build: palette index conflicts, bitmap/metric limits, config sign constraints, master source-set checks, gradient coordinate overflow, duplicate glyph names, unsupported fills, non-uniform radial mapping. Claim: the API raises exactly when it must.",
         bounds={"see": "C15/C14/C10/C16/C04 for the shared kernels", "masters": "7 source-set structures over 2-3 masters", "bad fills": "4 malformed gradient elements x symbolic opacity, 5 malformed colour strings"},
-        outside=["exit status of the CLI and ninja failure propagation", "'no freshly written font' (filesystem)", "unparseable XML (lxml)", "the glyph map CSV"],
+        outside=["exit status beyond maybe_run_ninja raising (absl app.run turning the exception into a status; the ninja binary propagating a failed step)", "'no freshly written font' (filesystem)", "unparseable XML (lxml)", "the glyph map CSV"],
         assumptions=["toml stub as in C10"],
         shims=["see shared kernels"],
         stubs=["see shared kernels"],
